@@ -181,7 +181,7 @@ theorem replaceNE_length_le (old : Bytes) : ∀ (n : Nat) (s : Bytes),
 
 end SRS
 
-theorem replace_self (s p : Bytes) : StrF.replace s p p = s := by
+theorem replace_self_lemma (s p : Bytes) : StrF.replace s p p = s := by
   simp [StrF.replace]
 
 theorem replaceFirst_self (s p : Bytes) : StrF.replaceFirst s p p = s := by
@@ -342,7 +342,7 @@ theorem splitNE_join (sep : Bytes) (ps : List Bytes) (hsep : sep ≠ [])
         rw [h1, h2, ih (fun r hr => hps r (List.mem_cons_of_mem _ hr)) (by simp) n
           (by simp only [List.length_append] at hn; omega)]
 
-theorem split_join (sep : Bytes) (ps : List Bytes) (hsep : sep ≠ []) (hsp : sep ≠ [32])
+theorem split_join_lemma (sep : Bytes) (ps : List Bytes) (hsep : sep ≠ []) (hsp : sep ≠ [32])
     (hps : ∀ p ∈ ps, p ≠ [] ∧ ∀ b ∈ p, b ∉ sep) (hne : ps ≠ []) :
     StrF.split (StrF.join sep ps) sep = ps := by
   unfold StrF.split StrF.splitRaw
@@ -490,7 +490,7 @@ theorem join_splitNE (sep s : Bytes) (hsep : sep ≠ []) (n : Nat) (hn : s.lengt
       rw [SRS.join_cons_of_ne_nil _ _ _ (SRS.splitNE_ne_nil _ _ _), ih]
       exact (indexOf_some sep s i hi).2.1.symm
 
-theorem join_split (s sep : Bytes) (hsp : sep ≠ [32]) (hend : sep = [] ∨ ¬ sep <:+ s) :
+theorem join_split_lemma (s sep : Bytes) (hsp : sep ≠ [32]) (hend : sep = [] ∨ ¬ sep <:+ s) :
     StrF.join sep (StrF.split s sep) = s := by
   unfold StrF.split StrF.splitRaw
   rw [if_neg hsp]
@@ -534,10 +534,10 @@ example : StrF.join [44,32] [[97],[],[98]] = [97,44,32,44,32,98] := by decide
 
 /-- the hypotheses of the round-trip theorems are satisfiable -/
 example : StrF.split (StrF.join [44] [[97],[98,99]]) [44] = [[97],[98,99]] :=
-  split_join [44] _ (by decide) (by decide) (by decide) (by decide)
+  split_join_lemma [44] _ (by decide) (by decide) (by decide) (by decide)
 example : StrF.split (StrF.join [32] [[97],[98,99]]) [32] = [[97],[98,99]] :=
   split_join_ws _ (by decide) (by decide)
 example : StrF.join [44] (StrF.split [97,44,44,98] [44]) = [97,44,44,98] :=
-  join_split _ _ (by decide) (Or.inr (by decide))
+  join_split_lemma _ _ (by decide) (Or.inr (by decide))
 example : StrF.replace ([120] ++ [97,98] ++ [97,98,121]) [97,98] [45] = [120] ++ [45] ++ StrF.replace [97,98,121] [97,98] [45] :=
   replace_step _ _ _ _ (by decide) (by decide) (by decide)
